@@ -64,6 +64,13 @@ inductive Coord where
   | returned (intr : Bool)
 deriving DecidableEq, Repr
 
+/-- What an observer of the calls sees: entry of `fn(x)`, its normal return, its raising. -/
+inductive Ev where
+  | begin (x : Nat)
+  | ok (x : Nat)
+  | fail (x : Nat)
+deriving DecidableEq, Repr
+
 structure Cfg where
   workers : Nat            -- coerce_worker_count result, ≥ 1
   maxErr  : Option Nat     -- coerce_max_errors result
@@ -85,6 +92,7 @@ structure St where
   retired    : List Nat          -- nodes whose worker is done with them (released all successors / failed / skipped)
   rel        : List (Nat × Nat)  -- (x, y): x has handled its successor y (put or decrement)
   enq        : List Nat          -- every node ever put in the queue (including the initial ones)
+  log        : List Ev := []     -- begin / ok / fail events in the order they happened
 
 inductive Label where
   | spawn
@@ -110,7 +118,7 @@ def init (g : Graph) : St :=
     stop := false, errs := 0, first := none
     ws := [], coord := .spawning 0
     begun := [], okd := [], failed := [], skipped := [], retired := [], rel := []
-    enq := sources g }
+    enq := sources g, log := [] }
 
 def setW (s : St) (w : Nat) (st : W) : St := { s with ws := s.ws.set w st }
 
@@ -145,11 +153,12 @@ def step? (g : Graph) (cfg : Cfg) (s : St) : Label → Option St
       if s.stop then
         some { setW s w (.finishing false) with skipped := s.skipped ++ [x], retired := s.retired ++ [x] }
       else
-        some { setW s w (.running x) with begun := s.begun ++ [x] }
+        some { setW s w (.running x) with begun := s.begun ++ [x], log := s.log ++ [.begin x] }
     | _ => none
   | .finOk w =>
     match s.ws[w]? with
-    | some (.running x) => some { setW s w (.releasing x (g.succs x)) with okd := s.okd ++ [x] }
+    | some (.running x) =>
+      some { setW s w (.releasing x (g.succs x)) with okd := s.okd ++ [x], log := s.log ++ [.ok x] }
     | _ => none
   | .finFail w =>
     match s.ws[w]? with
@@ -159,7 +168,7 @@ def step? (g : Graph) (cfg : Cfg) (s : St) : Label → Option St
                errs := errs'
                first := match s.first with | some f => some f | none => some x
                stop := s.stop || stopCond errs' cfg.maxErr
-               failed := s.failed ++ [x], retired := s.retired ++ [x] }
+               failed := s.failed ++ [x], retired := s.retired ++ [x], log := s.log ++ [.fail x] }
     | _ => none
   | .release w y =>
     match s.ws[w]? with
